@@ -4,6 +4,7 @@
   is exactly the strict decoder's result, for UTF-8 (the crate's DFA), UTF-16 and every single-byte table;
   and whenever the strict decode succeeds, `Ignore` and `Replace` return the very same text.
 -/
+import CharsetProof.Lemmas.CjkEvents
 import CharsetProof.Props.C17
 set_option linter.unusedSectionVars false
 namespace Charset
@@ -98,7 +99,11 @@ theorem C17_strict_is_codec (c : Codec) (ev : Bytes → List (Option Nat)) (st :
     simp only [Codec.strict, Option.some.injEq] at hst
     subst hev; subst hst
     exact utf16_strict_events _ _ _ (Nat.le_refl _)
-  | external id => simp [Codec.events] at hev
+  | external id =>
+    simp only [Codec.events] at hev
+    simp only [Codec.strict] at hst
+    rw [Cjk.eventsOf_strict hev hst]
+    cases st input <;> rfl
 
 /-- when no problem is trapped, all three modes agree -/
 theorem applyTrap_agree (evs : List (Option Nat)) (t : Text) (h : applyTrap .strict evs = some t) :
